@@ -401,7 +401,9 @@ def oracle_direct(events, out, wf, rerun=True):
     off = {p: next(iter(s)) for p, s in offs.items()}
     n = len(ranks)
     # ---- aligned (tree branch; pids 0..n-1 present)
-    if tree and all(p in off for p in range(n)):
+    complete = all(any(is_coll(e) and e["pid"] == p and e["args"]["cg"] == g and e["args"].get("dev") for e in events)
+                   for p in range(n) for g in used)
+    if tree and complete and all(p in off for p in range(n)):
         def gend(pid, g, k):
             return max(fr(e["args"]["dev"][k]) for e in events if is_coll(e) and e["pid"] == pid and e["args"]["cg"] == g)
         diffs = [gend(1, g, 1) + off[1] - (gend(0, g, 4) + off[0]) for g in used]
@@ -680,7 +682,11 @@ def gen_e2e(rng, ranks=None):
         out = []
         if rng.random() < 0.5:
             out.append({"ph": "M", "name": "process_name", "pid": r, "ts": 0, "args": {"name": f"rank{r}"}})
-        for (a, b, e) in evs:
+        for k, (a, b, e) in enumerate(evs):
+            if (k > 0 or out) and "CollGroup" not in e.get("attr", {}) and rng.random() < 0.06:
+                # a FLEX file is ONE rank: a later event that names another pid still belongs to the file's rank
+                e = dict(e, pid=rng.choice([0, r + 1, 77]))
+                sc["foreign_pids"] = sc.get("foreign_pids", 0) + 1
             if rng.random() < 0.5:
                 ee = {"name": e["name"], "ph": "E", "pid": e["pid"], "tid": e["tid"], "ts": float(b)}
                 if "attr" in e:
@@ -696,13 +702,14 @@ def bump_e2e(sc, deltas):
     """the same scenario with rank r's cycle counters offset by deltas[r] (host clocks untouched)"""
     s2 = copy.deepcopy(sc)
     for fn, evs in s2["files"].items():
+        rank = int(fn[4:].split(".")[0])          # rank<r>.json
         for e in evs:
             at = e.get("attr")
             if at:
                 for k in ("TS1", "TS2", "TS3", "TS4", "TS5"):
                     if k in at:
                         v = int(at[k], 0)
-                        nv = (v + deltas[e["pid"]]) % W
+                        nv = (v + deltas[rank]) % W
                         at[k] = hex(nv) if at[k].startswith("0x") else str(nv)
     s2["epoch"] = [(x + d) for x, d in zip(sc["epoch"], deltas)]
     return s2
@@ -858,6 +865,9 @@ def oracle_e2e(sc, runs):
         if t is None:
             continue
         xn = byn[u][0]
+        if x["args"].get("rank") != t["rank"] or (t["device"] and x["pid"] != t["rank"]):
+            fail("e2e_rank_annotation", t["rank"], [x["pid"], x["args"].get("rank")], uid=u, device=t["device"])
+            return fails
         if fr(x["dur"]) != fr(xn["dur"]):
             fail("e2e_dur_changed", xn["dur"], x["dur"], uid=u, device=t["device"])
             return fails
@@ -885,7 +895,9 @@ def oracle_e2e(sc, runs):
             t = truth.get(u)
             if t and t["device"]:
                 goff[t["rank"]] = fr(x["ts"]) - Fraction(t["g"][t["a"]], f)
-        if tree and all(r in goff for r in range(n)):
+        complete = all(any(t["device"] and t["rank"] == r and t["cg"] == g for t in truth.values())
+                       for r in range(n) for g in used)
+        if tree and complete and all(r in goff for r in range(n)):
             def gend(r, g, k):
                 return max(Fraction(t["g"][k], f) for t in truth.values()
                            if t["device"] and t["rank"] == r and t["cg"] == g)
@@ -1025,19 +1037,19 @@ def run(ctx):
             add_direct(case, "corpus:" + case["corpus"])
     n_corpus = len(items)
     # ---- generated direct stream (+ separate malformed stream)
-    n_direct = ctx.pick(700, 12000)
+    n_direct = ctx.pick(900, 8000)
     for i in range(n_direct):
         case = gen_direct(rng)
         add_direct(case, "gen")
         if i < 2:
             samples.append({"kind": "direct", "events": case["events"][:6]})
-    n_mal = ctx.pick(150, 2500)
+    n_mal = ctx.pick(200, 1500)
     for i in range(n_mal):
         add_direct(gen_direct(rng, malformed=True), "malformed")
         dist["direct"]["malformed"] += 1
     n_direct_items = len(items)
     # ---- end to end
-    for i in range(ctx.pick(100, 1500)):
+    for i in range(ctx.pick(200, 1500)):
         e2e_cases.append((gen_e2e(rng), "gen"))
     t_e2e = time.time()
     n_e2e_done = 0
